@@ -80,7 +80,7 @@ def main():
     try:
         demo_src = open(os.path.join(args.src, 'demo.py')).read()
         # the demo may name the author's worktree; point it at ours
-        demo_txt = re.sub(r'/tmp/seed[234]?/C\d\d', wt, demo_src)
+        demo_txt = re.sub(r'/tmp/seed[2345]?/C\d\d', wt, demo_src)
         demo = f'/tmp/sv/{args.name}-demo.py'
         open(demo, 'w').write(demo_txt)
         env = dict(os.environ, PYTHONPATH=wt)
